@@ -4,7 +4,7 @@ SPEC = dict(
     level="proof",
     harness=dict(pkg_dir="index", run="TestVerifC05$", files=["index/zz_verif_c05_test.go"],
                  n_quick=250, n_thorough=4000),
-    runner=dict(imports=["From ZV Require Import Lib.Base Model.Query."], case_type="c05case",
+    runner=dict(imports=["From ZV Require Import Lib.Base Model.Query Model.QueryStd."], case_type="c05case",
                 mismatch_fn="c05_mismatches", shard=300),
     rule="random query trees (depth 1-4 plus same-kind nesting towers; all node kinds reachable from package index; empty/nil/"
          "single-child And/Or, Const under Not/Type/Boost, empty patterns/sets/bitmaps, OpEmptyMatch regexps, RawConfig > 8 bit, "
